@@ -248,6 +248,26 @@ def check_impl(sg, kind, x0, x, off, expandPosition, GeneratorSite):
         if len(g2.eqxyz) != len(e1) or any(pdist(p, q) > 1e-12 for p, q in zip(g2.eqxyz, e1)) or pdist(g2.xyz, x1) > 1e-12:
             return "a second GeneratorSite of the same site, built after the caller edited eqxyz/xyz of the first in place, has eqxyz %r; the first had %r" % (
                 [list(map(float, p)) for p in g2.eqxyz][:3], e1[:3]), None
+    if _PURITY[0] % 6 == 1 and kind in ("exact", "shift", "offset", "offset+shift"):
+        # an asymmetric unit that lists the site, another member of its orbit and a cell-shifted copy: every listed site is
+        # expanded on its own - its orbit, with the listed site itself first
+        from diffpy.structure.symmetryutilities import ExpandAsymmetricUnit
+
+        xq = [Fraction(v) for v in x]
+        other = list(opos[-1]) if len(opos) > 1 else None
+        core = [[float(v) for v in xq]]
+        if other is not None:
+            core.append([float(v) for v in other])
+        core.append([float(xq[0] + 1), float(xq[1] - 2), float(xq[2])])
+        eau = ExpandAsymmetricUnit(sg, [numpy.array(c) for c in core], sgoffset=of, eps=1.0e-5)
+        for i_, c in enumerate(core):
+            ps = eau.expandedpos[i_]
+            if len(ps) != len(opos) or eau.multiplicity[i_] != len(opos):
+                return "ExpandAsymmetricUnit: listed site %d %r expands to %d positions, its orbit has %d" % (i_, c, len(ps), len(opos)), None
+            if pdist(ps[0], [v % 1 for v in c]) > 1e-9:
+                return "ExpandAsymmetricUnit: the first position of listed site %d %r is %r, not the site itself" % (i_, c, list(map(float, ps[0]))), None
+            if any(min(pdist(p, q) for q in opos) > max(tol, 1e-9) for p in ps):
+                return "ExpandAsymmetricUnit: positions of listed site %d are not its orbit" % i_, None
     return None, (len(pos), first, got)
 
 
